@@ -175,3 +175,76 @@ pub fn int_decode(b: &[u8], w: usize, unsigned: bool) -> i128 {
         }
     }
 }
+
+/// the protocol's length-encoded integer, written from the MySQL documentation
+pub fn spec_lenenc(x: u64, out: &mut [u8; 9]) -> usize {
+    if x < 251 {
+        out[0] = x as u8;
+        1
+    } else if x < 65536 {
+        out[0] = 0xFC;
+        out[1] = (x & 0xff) as u8;
+        out[2] = (x >> 8) as u8;
+        3
+    } else if x < 16777216 {
+        out[0] = 0xFD;
+        out[1] = (x & 0xff) as u8;
+        out[2] = ((x >> 8) & 0xff) as u8;
+        out[3] = (x >> 16) as u8;
+        4
+    } else {
+        out[0] = 0xFE;
+        let mut k = 0;
+        while k < 8 {
+            out[1 + k] = ((x >> (8 * k)) & 0xff) as u8;
+            k += 1;
+        }
+        9
+    }
+}
+
+
+/// Sink for `write_lenenc_str`-shaped output: header bytes (small writes from temporaries) are copied,
+/// the payload is recognised by pointer identity with the expected buffer and recorded by length, so
+/// no byte loop over a payload of symbolic size is ever executed.
+pub struct RecSink {
+    pub small: [u8; 16],
+    pub n_small: usize,
+    pub expect: *const u8,
+    pub pay_len: usize,
+    pub pay_calls: usize,
+    pub bad: bool,
+}
+impl RecSink {
+    pub fn new(expect: *const u8) -> Self {
+        RecSink { small: [0; 16], n_small: 0, expect, pay_len: 0, pay_calls: 0, bad: false }
+    }
+}
+impl Write for RecSink {
+    fn write(&mut self, buf: &[u8]) -> io::Result<usize> {
+        if buf.as_ptr() == self.expect && self.pay_calls == 0 {
+            self.pay_len = buf.len();
+            self.pay_calls = 1;
+        } else if self.pay_calls == 0 && buf.len() <= 9 && self.n_small + buf.len() <= 16 {
+            let mut i = 0;
+            while i < buf.len() && i < 9 {
+                self.small[self.n_small + i] = buf[i];
+                i += 1;
+            }
+            self.n_small += buf.len();
+        } else {
+            self.bad = true;
+        }
+        Ok(buf.len())
+    }
+    fn flush(&mut self) -> io::Result<()> {
+        Ok(())
+    }
+}
+
+/// Did the sink receive exactly lenenc_int(n) followed by the n bytes of `data` (by identity)?
+pub fn is_lenenc_str(s: &RecSink, n: usize, k1: usize) -> bool {
+    let mut spec = [0u8; 9];
+    let hl = spec_lenenc(n as u64, &mut spec);
+    !s.bad && s.n_small == hl && (k1 >= hl || s.small[k1] == spec[k1]) && (if n > 0 { s.pay_calls == 1 && s.pay_len == n } else { s.pay_calls == 0 || s.pay_len == 0 })
+}
